@@ -31,8 +31,12 @@ What is proved, for ALL schedules of unbounded length and all write histories:
   * with the index guard of inmem/watch.go in the materializer, subscriptions may start at ANY
     moment: `view_ok_with_index_guard`, `no_change_skipped_with_index_guard`,
     `indexes_monotone_with_index_guard`;
-  * without any hypothesis: `forced_resubscribe_acl`, `forced_resubscribe_restore`,
-    `closed_subscription_delivers_nothing`.
+  * without any hypothesis: `consume_does_not_interfere` (what one subscriber reads, and how its
+    token filters it, never changes what another subscriber receives from the shared items),
+    `forced_resubscribe_acl`, `forced_resubscribe_restore`, `closed_subscription_delivers_nothing`.
+The view theorems are stated for consuming subscribers whose token may read everything
+(`Unfiltered`); per-subscriber ACL visibility (`visible`, a pure function of authorizer and item)
+is in the model, compared line by line with the implementation, and monitored.
 Not proved (monitored on the implementation only): registrations that change the address of a
 node that already has instances, whole-node deregistration; the resume path under the index
 guard.
@@ -138,6 +142,54 @@ theorem indexes_monotone_with_index_guard (m : Mat) (st : Step) (hs : m.h = .str
     · simp only [handleG, hs, hi, ↓reduceIte, handle, updateView]
       omega
 
+/-- **non-interference between subscribers.** One subscriber's `Next` (including the ACL
+    filtering of the item it reads: `visible` is a pure function of its authorizer and the shared
+    item) changes nothing any other subscriber can observe: not their inboxes, materializers or
+    subscription states, not the cached snapshots, not the topic buffers' newest items, not the
+    queue, not the catalog. (The property consul relies on when it shares `bufferItem.Events`
+    between all subscribers; a filter that compacts the shared slice in place breaks it.) -/
+theorem consume_does_not_interfere (y : Sys) (id : Nat) :
+    (next y id).1.cache = y.cache ∧ (next y id).1.lasts = y.lasts ∧ (next y id).1.queue = y.queue ∧
+    (next y id).1.cat = y.cat ∧
+    ∀ d ∈ (next y id).1.clients, d.id ≠ id → d ∈ y.clients := by
+  unfold next nextWith
+  cases hg : getClient y id with
+  | none => exact ⟨rfl, rfl, rfl, rfl, fun d hd _ => hd⟩
+  | some c =>
+    have hcid : c.id = id := (getClient_mem hg).2
+    have key : ∀ c' : Client, c'.id = c.id →
+        (setClient y c').cache = y.cache ∧ (setClient y c').lasts = y.lasts ∧ (setClient y c').queue = y.queue ∧
+        (setClient y c').cat = y.cat ∧ ∀ d ∈ (setClient y c').clients, d.id ≠ id → d ∈ y.clients := by
+      intro c' e
+      refine ⟨rfl, rfl, rfl, rfl, ?_⟩
+      intro d hd hne
+      rcases mem_setClient hd with rfl | ⟨hd', -⟩
+      · exact absurd (e.trans hcid) hne
+      · exact hd'
+    simp only
+    cases hsub : c.sub with
+    | none => exact ⟨rfl, rfl, rfl, rfl, fun d hd _ => hd⟩
+    | force => simp only; split <;> exact key _ rfl
+    | acl => simp only; split <;> exact key _ rfl
+    | opened =>
+      simp only
+      cases hin : c.inbox with
+      | nil => exact ⟨rfl, rfl, rfl, rfl, fun d hd _ => hd⟩
+      | cons st rest =>
+        simp only
+        cases hv : visible c.authz c.key.topic st with
+        | none => exact key _ rfl
+        | some st' =>
+          simp only
+          cases hidx : stepIdx st' with
+          | none => exact key _ rfl
+          | some i => exact key _ rfl
+
+/-- what a subscriber is handed for a shared item depends on its own authorizer only; with a
+    token that may read everything it is the item itself -/
+theorem unfiltered_subscriber_sees_the_item (t : Topic) (st : Step) : visible .all t st = some st :=
+  visible_all t st
+
 /-- **forced_resubscribe (ACL).** For every state: publishing a batch that carries a token's
     `closeSubscriptionPayload` leaves no open subscription of that token. -/
 theorem forced_resubscribe_acl (y : Sys) (b : Batch) (rest : List Batch) (hq : y.queue = b :: rest)
@@ -191,7 +243,7 @@ def svc (node sid name : String) (port : Nat) (kind : Kind) : Svc := ⟨node, si
 
 /-- DESIGN §6 #9: two commits queued, subscribe, publish — delivered indexes 3, 3(end), 2. -/
 def witnessGap : List Act :=
-  [.client 1 (hkey "web") "t1" true,
+  [.client 1 (hkey "web") "t1" true .all,
    .commit 2 (.reg "n1" 1 (some (svc "n1" "s1" "web" 80 .typical))),
    .commit 3 (.reg "n1" 1 (some (svc "n1" "s1" "web" 81 .typical))),
    .subscribe 1, .publishOne, .publishOne, .next 1, .next 1, .next 1]
@@ -207,7 +259,7 @@ theorem indexes_monotone_counterexample : ∃ acts, ¬ Mono (run (Sys.init true)
 /-- the same gap with two different instances: after the stale event the view holds both
     instances while the state at the delivered index holds one -/
 def witnessGapMix : List Act :=
-  [.client 1 (hkey "web") "t1" true,
+  [.client 1 (hkey "web") "t1" true .all,
    .commit 2 (.reg "n1" 1 (some (svc "n1" "s1" "web" 80 .typical))),
    .commit 3 (.reg "n1" 1 (some (svc "n1" "s2" "web" 80 .typical))),
    .subscribe 1, .publishOne, .publishOne, .next 1, .next 1, .next 1, .next 1]
@@ -224,7 +276,7 @@ theorem view_ok_all_schedules_counterexample : ∃ acts, ¬ ViewOk (run (Sys.ini
 /-- a connect-native instance re-registered as a plain one: nothing is published on the
     Connect topic (catalog_events.go `connectEventsByServiceKind`) -/
 def witnessConnectLeak : List Act :=
-  [.client 1 (ckey "web") "t1" false,
+  [.client 1 (ckey "web") "t1" false .all,
    .commit 2 (.reg "n1" 1 (some (svc "n1" "s1" "web" 80 .native))), .publishOne,
    .subscribe 1, .next 1, .next 1,
    .commit 3 (.reg "n1" 1 (some (svc "n1" "s1" "web" 80 .typical))), .publishOne, .next 1]
@@ -241,7 +293,7 @@ theorem no_change_skipped_counterexample_connect_native :
 /-- one registration changes the node address and renames a sidecar whose destination stays
     the same: `ServiceHealthEventsFromChanges` emits [register(new), deregister(old)] -/
 def witnessRenameOrder : List Act :=
-  [.client 1 (ckey "web") "t1" false,
+  [.client 1 (ckey "web") "t1" false .all,
    .commit 2 (.reg "n1" 1 (some (svc "n1" "s1" "api" 80 (.proxy "web")))), .publishOne,
    .subscribe 1, .next 1, .next 1,
    .commit 3 (.reg "n1" 2 (some (svc "n1" "s1" "db" 80 (.proxy "web")))), .publishOne, .next 1]
@@ -255,7 +307,7 @@ theorem view_ok_counterexample_rename_order : ∃ acts, ¬ ViewOk (run (Sys.init
 /-- a batch committed before `FSM.Restore` and published after it reaches a subscription that
     was opened after the restore -/
 def witnessPreRestore : List Act :=
-  [.client 1 (hkey "web") "t1" true,
+  [.client 1 (hkey "web") "t1" true .all,
    .commit 2 (.reg "n1" 1 (some (svc "n1" "s1" "web" 80 .typical))), .publishOne,
    .commit 3 (.reg "n1" 1 (some (svc "n1" "s1" "web" 81 .typical))),
    .restore (applyWrite 2 Cat.empty (.reg "n1" 1 (some (svc "n1" "s1" "web" 80 .typical)))).1,
@@ -273,7 +325,7 @@ theorem no_change_skipped_counterexample_restore :
     keeps the topic buffer alive: `Subscribe` sees `HasEventIndex(req.Index)` and resumes it on
     the view of the discarded history. (The RPC materializer resets on `Aborted`.) -/
 def witnessLocalResume : List Act :=
-  [.client 1 (hkey "web") "t1" false, .client 2 (hkey "web") "t1" true,
+  [.client 1 (hkey "web") "t1" false .all, .client 2 (hkey "web") "t1" true .all,
    .commit 2 (.reg "n1" 1 (some (svc "n1" "s1" "web" 80 .typical))), .publishOne,
    .subscribe 1, .subscribe 2, .next 1, .next 1,
    .commit 3 (.reg "n1" 1 (some (svc "n1" "s1" "web" 81 .typical))), .publishOne, .next 1,
@@ -289,18 +341,30 @@ theorem forced_resubscribe_counterexample_local_resume :
   have h2 : quiescentB (run (Sys.init false) witnessLocalResume) = false := by rfl
   rw [h2] at h1; cases h1
 
+/-- two subscribers with different tokens on the wildcard config-entry topic share one cached
+    multi-event snapshot: the restricted one (service "web" only) reads it first and materializes
+    [web]; the unrestricted one afterwards still materializes [api, web] -/
+def witnessSharedFiltered : List Act :=
+  [.client 1 ⟨.cfg, .wild⟩ "t1" true (.svcs ["web"]), .client 2 ⟨.cfg, .wild⟩ "t2" true .all,
+   .commit 2 (.cfgSet "api" 1), .commit 3 (.cfgSet "web" 2), .publishOne, .publishOne,
+   .subscribe 1, .subscribe 2, .next 1, .next 1, .next 2, .next 2]
+
+theorem shared_item_filtered_per_subscriber :
+    (run (Sys.init true) witnessSharedFiltered).clients.map (fun c => (c.m.index, c.m.view.map (·.1.1))) =
+      [(3, ["web"]), (3, ["api", "web"])] := by rfl
+
 /-! ## Non-vacuity: the hypotheses are satisfiable by schedules that deliver events -/
 
 /-- a clean schedule: two subscribers (named and wildcard subject), snapshot, streamed update -/
 def witnessClean : List Act :=
-  [.client 1 ⟨.cfg, .named "web"⟩ "t1" true, .client 2 ⟨.cfg, .wild⟩ "t2" false,
+  [.client 1 ⟨.cfg, .named "web"⟩ "t1" true .all, .client 2 ⟨.cfg, .wild⟩ "t2" false .all,
    .commit 2 (.cfgSet "web" 1), .publishOne,
    .subscribe 1, .next 1, .next 1,
    .commit 3 (.cfgSet "web" 2), .publishOne, .subscribe 2, .next 1, .next 2, .next 2]
 
 theorem cleanRun_nonvacuous : CleanRun (Sys.init true) witnessClean := by
-  refine ⟨trivial, trivial, ⟨by decide, faithful_cfgSet _ _ _ _⟩, trivial, ?_, trivial, trivial,
-    ⟨?_, faithful_cfgSet _ _ _ _⟩, trivial, ?_, trivial, trivial, trivial, trivial⟩
+  refine ⟨(by first | trivial | (show Unfiltered _ _; decide)), (by first | trivial | (show Unfiltered _ _; decide)), ⟨by decide, faithful_cfgSet _ _ _ _⟩, (by first | trivial | (show Unfiltered _ _; decide)), ?_, (by first | trivial | (show Unfiltered _ _; decide)), (by first | trivial | (show Unfiltered _ _; decide)),
+    ⟨?_, faithful_cfgSet _ _ _ _⟩, (by first | trivial | (show Unfiltered _ _; decide)), ?_, (by first | trivial | (show Unfiltered _ _; decide)), (by first | trivial | (show Unfiltered _ _; decide)), (by first | trivial | (show Unfiltered _ _; decide)), (by first | trivial | (show Unfiltered _ _; decide))⟩
   · show CleanSubR _ 1; decide
   · decide
   · show CleanSubR _ 2; decide
@@ -312,15 +376,15 @@ theorem cleanRun_delivers :
 /-- a clean schedule on the health and connect topics: first registration of a node with a
     connect-native instance, snapshot, a port change, a deregistration -/
 def witnessCleanSvc : List Act :=
-  [.client 1 (hkey "web") "t1" true, .client 2 (ckey "web") "t2" false,
+  [.client 1 (hkey "web") "t1" true .all, .client 2 (ckey "web") "t2" false .all,
    .commit 2 (.reg "n1" 1 (some (svc "n1" "s1" "web" 80 .native))), .publishOne,
    .subscribe 1, .subscribe 2, .next 1, .next 1, .next 2, .next 2,
    .commit 3 (.reg "n1" 1 (some (svc "n1" "s1" "web" 81 .native))), .publishOne, .next 1, .next 2,
    .commit 4 (.dereg "n1" (some "s1")), .publishOne, .next 1, .next 2]
 
 theorem cleanRunS_nonvacuous : CleanRunS (Sys.init true) witnessCleanSvc := by
-  refine ⟨trivial, trivial, ⟨by decide, ?_⟩, trivial, ?_, ?_, trivial, trivial, trivial, trivial,
-    ⟨by decide, ?_⟩, trivial, trivial, trivial, ⟨by decide, trivial⟩, trivial, trivial, trivial, trivial⟩
+  refine ⟨(by first | trivial | (show Unfiltered _ _; decide)), (by first | trivial | (show Unfiltered _ _; decide)), ⟨by decide, ?_⟩, (by first | trivial | (show Unfiltered _ _; decide)), ?_, ?_, (by first | trivial | (show Unfiltered _ _; decide)), (by first | trivial | (show Unfiltered _ _; decide)), (by first | trivial | (show Unfiltered _ _; decide)), (by first | trivial | (show Unfiltered _ _; decide)),
+    ⟨by decide, ?_⟩, (by first | trivial | (show Unfiltered _ _; decide)), (by first | trivial | (show Unfiltered _ _; decide)), (by first | trivial | (show Unfiltered _ _; decide)), ⟨by decide, (by first | trivial | (show Unfiltered _ _; decide))⟩, (by first | trivial | (show Unfiltered _ _; decide)), (by first | trivial | (show Unfiltered _ _; decide)), (by first | trivial | (show Unfiltered _ _; decide)), (by first | trivial | (show Unfiltered _ _; decide))⟩
   · exact ⟨rfl, Or.inr ⟨by decide, by rfl⟩⟩
   · show CleanSubR _ 1; decide
   · show CleanSubR _ 2; decide
@@ -339,7 +403,7 @@ theorem cleanRunS_delivers :
 /-- a clean schedule through the RESUME path: subscriber 1 disconnects and re-subscribes with
     the index it holds while subscriber 2 keeps the topic buffer alive -/
 def witnessResume : List Act :=
-  [.client 1 (hkey "web") "t1" false, .client 2 (hkey "web") "t2" true,
+  [.client 1 (hkey "web") "t1" false .all, .client 2 (hkey "web") "t2" true .all,
    .commit 2 (.reg "n1" 1 (some (svc "n1" "s1" "web" 80 .typical))), .publishOne,
    .subscribe 1, .subscribe 2, .next 1, .next 1,
    .commit 3 (.cfgSet "web" 1), .commit 4 (.dereg "n1" (some "s1")), .publishOne, .publishOne, .next 1,
@@ -347,9 +411,9 @@ def witnessResume : List Act :=
    .commit 5 (.kv), .publishOne, .next 1]
 
 theorem cleanRunS_resume_nonvacuous : CleanRunS (Sys.init false) witnessResume := by
-  refine ⟨trivial, trivial, ⟨by decide, ?_⟩, trivial, ?_, ?_, trivial, trivial,
-    ⟨by decide, trivial⟩, ⟨by decide, trivial⟩, trivial, trivial, trivial, trivial, ?_,
-    ⟨by decide, trivial⟩, trivial, trivial, trivial⟩
+  refine ⟨(by first | trivial | (show Unfiltered _ _; decide)), (by first | trivial | (show Unfiltered _ _; decide)), ⟨by decide, ?_⟩, (by first | trivial | (show Unfiltered _ _; decide)), ?_, ?_, (by first | trivial | (show Unfiltered _ _; decide)), (by first | trivial | (show Unfiltered _ _; decide)),
+    ⟨by decide, (by first | trivial | (show Unfiltered _ _; decide))⟩, ⟨by decide, (by first | trivial | (show Unfiltered _ _; decide))⟩, (by first | trivial | (show Unfiltered _ _; decide)), (by first | trivial | (show Unfiltered _ _; decide)), (by first | trivial | (show Unfiltered _ _; decide)), (by first | trivial | (show Unfiltered _ _; decide)), ?_,
+    ⟨by decide, (by first | trivial | (show Unfiltered _ _; decide))⟩, (by first | trivial | (show Unfiltered _ _; decide)), (by first | trivial | (show Unfiltered _ _; decide)), (by first | trivial | (show Unfiltered _ _; decide))⟩
   · exact ⟨rfl, Or.inr ⟨by decide, by rfl⟩⟩
   · show CleanSubR _ 1; decide
   · show CleanSubR _ 2; decide
@@ -365,14 +429,14 @@ theorem witnessResume_resumes :
     the guard the delivered indexes decrease; with the guard the hypotheses of
     `view_ok_with_index_guard` hold and the view is exact. -/
 def witnessGuard : List Act :=
-  [.client 1 ⟨.cfg, .named "web"⟩ "t1" true,
+  [.client 1 ⟨.cfg, .named "web"⟩ "t1" true .all,
    .commit 2 (.cfgSet "web" 1), .commit 3 (.cfgSet "web" 2),
    .subscribe 1, .publishOne, .publishOne, .next 1, .next 1, .next 1, .next 1]
 
 theorem guardRun_nonvacuous : GuardRun (Sys.init true) witnessGuard := by
-  refine ⟨trivial, ⟨by decide, faithful_cfgSet _ _ _ _, indexSound_cfgSet _ _ _ _ (by decide)⟩,
+  refine ⟨(by first | trivial | (show Unfiltered _ _; decide)), ⟨by decide, faithful_cfgSet _ _ _ _, indexSound_cfgSet _ _ _ _ (by decide)⟩,
     ⟨by decide, faithful_cfgSet _ _ _ _, indexSound_cfgSet _ _ _ _ (by decide)⟩, ?_,
-    trivial, trivial, trivial, trivial, trivial, trivial, trivial⟩
+    (by first | trivial | (show Unfiltered _ _; decide)), (by first | trivial | (show Unfiltered _ _; decide)), (by first | trivial | (show Unfiltered _ _; decide)), (by first | trivial | (show Unfiltered _ _; decide)), (by first | trivial | (show Unfiltered _ _; decide)), (by first | trivial | (show Unfiltered _ _; decide)), (by first | trivial | (show Unfiltered _ _; decide))⟩
   simp only [GuardAct]; decide
 
 theorem guard_repairs_witness :
